@@ -51,11 +51,18 @@ pub fn run(ctx: &Ctx, rep: &mut Report) {
     engine::drive(ctx, rep, "random-large", codec::codec_case(true), cases, check_case);
     let cases = ctx.share(ctx.tier.pick(6_000, 40_000));
     engine::drive(ctx, rep, "power-of-two-aligned", codec::aligned_case(), cases, check_case);
+    let cases = ctx.share(ctx.tier.pick(4_000, 100_000));
+    {
+        let _ballast = super::iovec_sm::Ballast::new(super::iovec_sm::BALLAST_MIB);
+        engine::drive(ctx, rep, "random-with-ballast", codec::codec_case(false), cases, check_case);
+    }
 }
 
 fn replay(_ctx: &Ctx, group: &str, case: &Value) -> CaseResult {
     if group.starts_with("small-scope") {
         hcobs_small::check_small_enc(&parse_case::<SmallEnc>(case)?, Focus::RoundTrip)
+    } else if group.ends_with("with-ballast") {
+        super::iovec_sm::check_with_ballast(&parse_case::<CodecCase>(case)?, check_case)
     } else {
         check_case(&parse_case::<CodecCase>(case)?)
     }
